@@ -169,6 +169,26 @@ class World:
             self.L('CANCEL', uid)
         return e, uid
 
+    def refire(self, uid):
+        """Fire the SAME event object once more (what Timer(persist=True) does on every expiry) under a fresh ghost identity.
+        Only meaningful once the earlier firing has been fully handled; the Value of that firing is kept in final_value."""
+        e = self.objs[uid]
+        old = self.events[uid]
+        if not hasattr(self, 'final_value'):
+            self.final_value = {}
+        self.final_value[uid] = e.value
+        self.nuid += 1
+        nu = self.nuid
+        e._vuid = nu
+        spec = old['spec']
+        self.events[nu] = dict(old, dispatched=0, cancelled=False, parent=None, by=None, refire_of=uid, flush_depth_at_fire=self.flush_depth)
+        self.objs[nu] = e
+        self.events[nu]['fired_at'] = self.L('F', nu, None, None, spec.get('prio', 0))
+        v = self.app.fire(e, *spec.get('channels', ()))
+        self.L('FR', nu)
+        self.events[nu]['value'] = v
+        return e, nu
+
     # -- handler bodies --------------------------------------------------------------------------------
     def _mk(self, hd):
         world = self
